@@ -91,7 +91,9 @@ def parse(path):
             item = {'path': parts[0], 'inserts': [], 'loops': {}, 'closures': {}, 'wraps': []}
             for kv in parts[1:]:
                 k, v = kv.split('=', 1)
-                if k == 'for_to_loop' and v != 'all':
+                if k == 'for_into_iter':
+                    v = [int(x) for x in v.split(',')]
+                elif k == 'for_to_loop' and v != 'all':
                     v = [int(x) for x in v.split(',')]
                 elif k in ('expect_loops', 'expect_closures'):
                     v = int(v)
@@ -197,7 +199,7 @@ def job(u, sentinel=False):
         j = {'path': it['path']}
         if sent:
             j['as'] = '__sentinel_' + it['path'].split('::')[-1]
-        for k in (() if sent else ('as',)) + ('ret', 'for_to_loop', 'impl_trait', 'bool_or_assign', 'expect_loops', 'expect_closures', 'keep_fields', 'derives', 'pre_attrs'):
+        for k in (() if sent else ('as',)) + ('ret', 'for_to_loop', 'for_into_iter', 'impl_trait', 'bool_or_assign', 'expect_loops', 'expect_closures', 'keep_fields', 'derives', 'pre_attrs'):
             if k in it:
                 j[k] = it[k]
         c = contract_text(it, sent)
